@@ -18,6 +18,7 @@ from vsc.model.dist_weight_expr_model import DistWeightExprModel
 from vsc.model.expr_array_subscript_model import ExprArraySubscriptModel
 from vsc.model.expr_bin_model import ExprBinModel
 from vsc.model.expr_cond_model import ExprCondModel
+from vsc.model.expr_partselect_model import ExprPartselectModel
 from vsc.model.expr_in_model import ExprInModel
 from vsc.model.expr_range_model import ExprRangeModel
 from vsc.model.expr_rangelist_model import ExprRangelistModel
@@ -245,6 +246,15 @@ class ConstraintCopyBuilder(ModelVisitor):
         else:
             super().visit_expr_literal(e)
             
+    def visit_expr_partselect(self, e):
+        if self.do_copy_level > 0:
+            self._expr = ExprPartselectModel(
+                self.expr(e.lhs),
+                e.upper,
+                e.lower)
+        else:
+            super().visit_expr_partselect(e)
+
     def visit_expr_unary(self, e : ExprUnaryModel):
         if self.do_copy_level > 0:
             self._expr = ExprUnaryModel(
